@@ -54,6 +54,19 @@ CHECKS["C03"] = dict(
   note="Trusts yang.Parse for the statement tree (decided separately by C02) and Go reflection. Acceptance of valid trees is not demanded.",
   design="DESIGN.md section 4, C03")
 
+CHECKS["C04"] = dict(
+  category="exploration",
+  technique="rapid model-based generation of valid-by-construction module sets (schema model + reference binder) with an invariant walk over all resulting trees, plus planted late/hidden problems that must surface as errors",
+  text="Module sets are generated from a typed schema model (imports, submodules with nested includes, typedefs/groupings at all scopes, nested cross-module uses, choices, rpc/action/notification) in model or permuted load order. When Process() is clean every module tree is walked over Dir and RPC input/output and the structural invariants of the property are asserted (key=name, parent link incl. input/output, no *Entry met twice, kind/child-map/list-attribute/type consistency, choice children are cases, no leftover augment, no recorded error, GetErrors() empty); sets with a planted problem that only shows late or in a place the collectors might not visit must not process cleanly. Sampling over an unbounded space; the evidence reports how many cases had nodes that went through >= 2 copy/merge steps.",
+  note="Trusts the schema model's own expansion only for the non-triviality rule and for deciding that a planted problem is a problem. Submodule trees are walked but not part of the sharing clause.",
+  design="DESIGN.md section 4, C04")
+CHECKS["C09"] = dict(
+  category="exploration",
+  technique="rapid model-based generation with a reference model: independent lexical binder and type folding over the schema model compared with every resolved Entry.Type; planted unknown/unresolvable/cyclic references",
+  text="Schemas with typedefs at all ten scope kinds drawn from a three-name pool (heavy shadowing), chained with restrictions across modules and submodules and referenced through arbitrary prefix choices are generated valid by construction; each typedef carries a unique units mark. A reference implementation of lexical binding and chain folding (nearest definition wins; patterns accumulate; ranges/lengths as big-integer sets) predicts kind, name, units, default, fraction-digits, patterns, enum/bit maps, path, union members, range/length and DefaultValues() of every leaf, compared after the whole set is processed (exposes aliasing). Valid sets must not be rejected by type resolution; planted unknown names, unknown prefixes and cycles of length 1-3 must produce an error (a stack overflow kills the worker and is attributed to the case by the driver).",
+  note="Trusts the harness binder/folder (yref) and numref. References from inside a submodule to its parent's or a non-included sibling's typedefs, and enum/bit subset re-listing, are not generated.",
+  design="DESIGN.md section 4, C09")
+
 PENDING = {}
 
 def main():
